@@ -460,6 +460,8 @@ def run(chk, tier):
     db = D.load("checks")
     from ..rules import params as _PR
     _PR.check(chk, db, ['_bitset/', '_bit/'], floor=40)
+    from ..rules import iters as _ITX
+    _ITX.reverse_index_area(chk, db, ['_bitset/', '_bit/'])      # IT4i: downward index scans reach index 0
     taint_rule(chk, db)
     deleg_rule(chk, db)
     guard_rule(chk, db)
